@@ -39,10 +39,31 @@ type c01Mem struct {
 	start  int64
 	step   int64
 	errVal map[ssa.Value]bool
+	// via: the value a phi took on the path walked / the value an inlined helper
+	// returned for a call result (see through)
+	via map[ssa.Value]ssa.Value
+}
+
+// through follows phis (along the path walked) and helper results to the
+// value that was actually returned, so that a constant or a global read the
+// same through named results, single-exit code or a helper.
+func (m *c01Mem) through(v ssa.Value) ssa.Value {
+	return c01Through(m.via, v)
+}
+
+func c01Through(via map[ssa.Value]ssa.Value, v ssa.Value) ssa.Value {
+	for i := 0; i < 20 && v != nil; i++ {
+		n, ok := via[v]
+		if !ok {
+			break
+		}
+		v = n
+	}
+	return v
 }
 
 func c01NewMem(seed int) *c01Mem {
-	m := &c01Mem{alias: map[ssa.Value]c01Loc{}, cell: map[string]map[int64]int64{}, input: map[string][]int64{}, names: map[int64]string{}, ids: map[ssa.Value]int{}, errVal: map[ssa.Value]bool{}}
+	m := &c01Mem{alias: map[ssa.Value]c01Loc{}, cell: map[string]map[int64]int64{}, input: map[string][]int64{}, names: map[int64]string{}, ids: map[ssa.Value]int{}, errVal: map[ssa.Value]bool{}, via: map[ssa.Value]ssa.Value{}}
 	m.start, m.step = []int64{40, 97, 191}[seed%3], []int64{1, 7, 113}[seed%3]
 	return m
 }
@@ -280,6 +301,7 @@ func (m *c01Mem) attach(w *pathWalker) {
 			if m.errVal[r] {
 				m.errVal[dst] = true
 			}
+			m.via[dst] = r
 		}
 		if len(results) == 1 {
 			set(call, results[0])
@@ -303,6 +325,7 @@ func (m *c01Mem) attach(w *pathWalker) {
 		if m.errVal[in] {
 			m.errVal[ph] = true
 		}
+		m.via[ph] = in
 	}
 	w.onStore = func(w *pathWalker, st *ssa.Store) string {
 		l, ok := m.resolve(w, st.Addr)
